@@ -57,36 +57,72 @@ func (t *tlInfo) doneCheckDefaults(fn *ssa.Function) map[sx.Edge]bool {
 // armLeadsToReturn: from the arm's edge the function returns without any
 // channel operation, Start or other module call.
 func (t *tlInfo) armLeadsToReturn(fn *ssa.Function, a sx.Arm) (bool, string) {
+	ok, why, _ := t.armReturn(fn, a)
+	return ok, why
+}
+
+// armReturn also yields the first result returned on that path (nil if none): a result merged by phis
+// is resolved along the path taken.
+func (t *tlInfo) armReturn(fn *ssa.Function, a sx.Arm) (bool, string, ssa.Value) {
+	ok, why, ret, path := t.armLeadsToReturnPath(fn, a)
+	if !ok || ret == nil || len(ret.Results) == 0 {
+		return ok, why, nil
+	}
+	v := returnValue(ret, 0)
+	for i := len(path) - 1; i >= 0; i-- {
+		ph, isPhi := v.(*ssa.Phi)
+		if !isPhi {
+			break
+		}
+		if ph.Block() != path[i] {
+			continue
+		}
+		from := a.Edge.From
+		if i > 0 {
+			from = path[i-1]
+		}
+		for k, pred := range path[i].Preds {
+			if pred == from {
+				v = ph.Edges[k]
+			}
+		}
+	}
+	return ok, why, v
+}
+
+func (t *tlInfo) armLeadsToReturnPath(fn *ssa.Function, a sx.Arm) (bool, string, *ssa.Return, []*ssa.BasicBlock) {
 	b := a.Edge.To()
 	seen := map[*ssa.BasicBlock]bool{}
+	var path []*ssa.BasicBlock
 	for {
+		path = append(path, b)
 		if seen[b] {
-			return false, "loops"
+			return false, "loops", nil, nil
 		}
 		seen[b] = true
 		for _, in := range b.Instrs {
 			switch x := in.(type) {
 			case *ssa.Select, *ssa.Send, *ssa.Go:
-				return false, "reaches " + in.String()
+				return false, "reaches " + in.String(), nil, nil
 			case *ssa.UnOp:
 				if x.Op == token.ARROW {
-					return false, "reaches a channel receive"
+					return false, "reaches a channel receive", nil, nil
 				}
 			case ssa.CallInstruction:
 				if t.isStart(x) {
-					return false, "reaches Start"
+					return false, "reaches Start", nil, nil
 				}
 				if c := sx.StaticCallee(x); c != nil && t.p.InModule(c) {
 					if _, isDefer := x.(*ssa.Defer); !isDefer {
-						return false, "calls " + fnName(c)
+						return false, "calls " + fnName(c), nil, nil
 					}
 				}
 			case *ssa.Return:
-				return true, ""
+				return true, "", x, path
 			}
 		}
 		if len(b.Succs) != 1 {
-			return false, "branches before returning"
+			return false, "branches before returning", nil, nil
 		}
 		b = b.Succs[0]
 	}
@@ -105,15 +141,16 @@ func runC07(p *core.Prog, r *core.Report) {
 	if !t.anchors(r) {
 		return
 	}
-	bodies := map[*ssa.Function]string{t.Queue: "goroutine", t.Worker: "goroutine", t.Push: "push"}
-
-	// ---- R1
+	// ---- R1 (on the inlined views of the three bodies, their closures and the frames they still call)
 	nSel, nBlocking := 0, 0
-	for body, kind := range bodies {
-		for f := range reachableFrom(p, body) {
-			if rootFn(f) != body && !strings.HasPrefix(fnName(f), "tasklane.") && !p.InModule(f) {
-				continue
-			}
+	for _, bk := range []struct {
+		body *ssa.Function
+		kind string
+	}{{t.Queue, "goroutine"}, {t.Worker, "goroutine"}, {t.Push, "push"}} {
+		body, kind := bk.body, bk.kind
+		_ = body
+		for _, f := range viewFuncs(p, body) {
+			f := f
 			if p.SPkgs["tasklane"] != rootFn(f).Pkg {
 				continue
 			}
@@ -137,14 +174,11 @@ func runC07(p *core.Prog, r *core.Report) {
 							continue
 						}
 						found = true
-						okRet, why := t.armLeadsToReturn(f, a)
+						okRet, why, rv := t.armReturn(f, a)
 						if kind == "push" && okRet {
 							// must return ctx.Err()
-							b := a.Edge.To()
-							if ret, isR := b.Instrs[len(b.Instrs)-1].(*ssa.Return); isR {
-								if !sx.Origins(returnValue(ret, 0))["call:(context.Context).Err"] {
-									okRet, why = false, "does not return ctx.Err()"
-								}
+							if rv == nil || !sx.Origins(rv)["call:(context.Context).Err"] {
+								okRet, why = false, "does not return ctx.Err()"
 							}
 						}
 						r.Check(okRet, "C07-R1", c+": Done arm returns", p.Pos(in.Pos()), "the ctx.Done() arm leaves the function immediately", "the ctx.Done() arm "+why+": after cancellation the "+kind+" keeps going")
@@ -197,13 +231,9 @@ func runC07(p *core.Prog, r *core.Report) {
 				if a.State == nil {
 					continue
 				}
-				okRet, why := t.armLeadsToReturn(t.Push, a)
-				if okRet {
-					b := a.Edge.To()
-					ret := b.Instrs[len(b.Instrs)-1].(*ssa.Return)
-					if !sx.Origins(returnValue(ret, 0))["call:(context.Context).Err"] {
-						okRet, why = false, "does not return ctx.Err()"
-					}
+				okRet, why, rv := t.armReturn(t.Push, a)
+				if okRet && (rv == nil || !sx.Origins(rv)["call:(context.Context).Err"]) {
+					okRet, why = false, "does not return ctx.Err()"
 				}
 				r.Check(okRet, "C07-R2", "PushTask: Done pre-check returns ctx.Err()", p.Pos(in.Pos()), "returns the context's error", "the pre-check's Done arm "+why)
 			}
@@ -240,10 +270,10 @@ func runC07(p *core.Prog, r *core.Report) {
 	}
 	{
 		// Add in the constructor
-		var add *ssa.Call
+		var adds []*ssa.Call
 		sx.Instrs(t.Ctor, func(in ssa.Instruction) {
 			if c, ok := in.(*ssa.Call); ok && sx.CalleeName(c) == "(*sync.WaitGroup).Add" {
-				add = c
+				adds = append(adds, c)
 			}
 		})
 		var ctorGos []*ssa.Go
@@ -252,19 +282,23 @@ func runC07(p *core.Prog, r *core.Report) {
 				ctorGos = append(ctorGos, g)
 			}
 		}
-		if add == nil {
+		if len(adds) == 0 {
 			r.Fail("C07-R3", "constructor: wg.Add", p.FuncPos(t.Ctor), "no wg.Add call in the constructor")
 		} else {
+			cut := sx.Cut{Instrs: map[ssa.Instruction]bool{}}
+			for _, a := range adds {
+				cut.Instrs[a] = true
+			}
 			dom := true
 			for _, g := range ctorGos {
-				if !sx.MustPass(t.Ctor, nil, g, sx.Cut{Instrs: map[ssa.Instruction]bool{add: true}}) {
+				if !sx.MustPass(t.Ctor, nil, g, cut) {
 					dom = false
 				}
 			}
-			r.Check(dom, "C07-R3", "constructor: wg.Add dominates every go statement", p.Pos(add.Pos()), "Add happens-before all goroutine starts", "a go statement is reachable without wg.Add having run")
+			r.Check(dom, "C07-R3", "constructor: wg.Add dominates every go statement", p.Pos(adds[0].Pos()), "Add happens-before all goroutine starts", "a go statement is reachable without wg.Add having run")
 			// symbolic count
-			okCount, detail := checkAddCount(p, t, add, ctorGos)
-			r.Check(okCount, "C07-R3", "constructor: wg.Add count equals the number of goroutines started", p.Pos(add.Pos()), detail, detail)
+			okCount, detail := checkAddCount(p, t, adds, ctorGos)
+			r.Check(okCount, "C07-R3", "constructor: wg.Add count equals the number of goroutines started", p.Pos(adds[0].Pos()), detail, detail)
 		}
 	}
 	for _, g := range t.GoSites {
@@ -282,7 +316,7 @@ func runC07(p *core.Prog, r *core.Report) {
 			}
 		})
 		body := sx.StaticCallee(g)
-		counted := body == t.Queue || body == t.Worker
+		counted := sameFn(body, t.Queue) || sameFn(body, t.Worker)
 		ok := !counted || (len(cut.Instrs) > 0 && sx.MustPass(fn, nil, g, cut))
 		r.Check(ok, "C07-R3", "go statement in "+fnName(fn)+" is counted", p.Pos(g.Pos()), "Add(1) precedes the go statement", "a goroutine running "+fnName(body)+" (which calls wg.Done) is started without wg.Add(1): the counter reaches zero while a worker is still running and Wait returns early")
 	}
@@ -359,92 +393,152 @@ func runC07(p *core.Prog, r *core.Report) {
 	}
 }
 
-// checkAddCount compares the argument of wg.Add with (#go statements in the
-// loop body) × (trip count of that loop), both as expressions over the
-// constructor's parameters.
-func checkAddCount(p *core.Prog, t *tlInfo, add *ssa.Call, gos []*ssa.Go) (bool, string) {
-	if len(gos) == 0 {
-		return false, "no go statements in the constructor"
-	}
-	// group the go statements by the innermost loop that contains them
-	perLoop := map[*ssa.BasicBlock]int{}
-	straight := 0
-	for _, g := range gos {
-		if h := sx.InnermostLoop(t.Ctor, g.Block()); h != nil {
-			perLoop[h]++
-		} else {
-			straight++
+// canonCount resolves a count expression of the constructor to its source: len(list) of a lane list made
+// with make([]chan Task, n) is n.
+func (t *tlInfo) canonCount(v ssa.Value) ssa.Value {
+	for i := 0; i < 6; i++ {
+		v = sx.Unspill(v)
+		c, ok := v.(*ssa.Call)
+		if !ok {
+			return v
 		}
-	}
-	arg := add.Call.Args[1]
-	// Add inside a loop: Add(k) per iteration must match that loop's go statements
-	if h := sx.InnermostLoop(t.Ctor, add.Block()); h != nil {
-		if k, ok := sx.ConstInt(arg); ok && int(k) == perLoop[h] && len(perLoop) == 1 && straight == 0 {
-			return true, fmt.Sprintf("Add(%d) per iteration for %d go statements per iteration", k, perLoop[h])
+		if b, isB := c.Call.Value.(*ssa.Builtin); !isB || b.Name() != "len" || len(c.Call.Args) != 1 {
+			return v
 		}
-		return false, fmt.Sprintf("Add(%s) per iteration does not match the go statements of that loop (%d)", sx.ValPath(arg), perLoop[h])
-	}
-	if len(perLoop) == 0 {
-		if k, ok := sx.ConstInt(arg); ok && int(k) == straight {
-			return true, fmt.Sprintf("Add(%d) for %d go statements", k, straight)
+		arg := sx.Unspill(c.Call.Args[0])
+		if ms, ok := arg.(*ssa.MakeSlice); ok {
+			v = ms.Len
+			continue
 		}
-		return false, "Add does not match the number of go statements"
-	}
-	if straight > 0 {
-		return false, "go statements both inside and outside loops: the total cannot be compared with wg.Add symbolically"
-	}
-	// every loop: phi from 0, +1, cond phi < N with the same N
-	var bound ssa.Value
-	total := 0
-	for h, n := range perLoop {
-		var b ssa.Value
-		for _, in := range h.Instrs {
-			iff, ok := in.(*ssa.If)
-			if !ok {
+		var found ssa.Value
+		n := 0
+		for _, f := range []*types.Var{t.Buffered, t.Blocking} {
+			if f == nil || !sx.Origins(arg)[t.fieldKey(f)] {
 				continue
 			}
-			be, ok := iff.Cond.(*ssa.BinOp)
-			if !ok || be.Op != token.LSS {
-				continue
-			}
-			ph, ok := be.X.(*ssa.Phi)
-			if !ok || ph.Block() != h {
-				continue
-			}
-			zero, inc := false, false
-			for _, e := range ph.Edges {
-				if k, isC := sx.ConstInt(e); isC && k == 0 {
-					zero = true
+			for _, ref := range sx.FieldRefs([]*ssa.Function{t.Ctor}, f) {
+				fa, ok := ref.Instr.(*ssa.FieldAddr)
+				if !ok {
+					continue
 				}
-				if bb, isB := e.(*ssa.BinOp); isB && bb.Op == token.ADD && bb.X == ssa.Value(ph) {
-					if k, isC := sx.ConstInt(bb.Y); isC && k == 1 {
-						inc = true
+				for _, a := range sx.Accesses(fa) {
+					if a.Kind == "write" {
+						n++
+						if ms, ok := sx.Unspill(a.Val).(*ssa.MakeSlice); ok {
+							found = ms.Len
+						}
 					}
 				}
 			}
-			if zero && inc {
-				b = be.Y
-			}
 		}
-		if b == nil {
+		if n != 1 || found == nil {
+			return v
+		}
+		v = found
+	}
+	return v
+}
+
+// checkAddCount compares the wg.Add calls of the constructor with the go
+// statements it runs: a loop (or the straight-line part) that holds Add calls
+// must add, per iteration, exactly the number of its go statements; go
+// statements in loops without an Add of their own are covered by the one Add
+// outside all loops, whose argument must equal (go statements per iteration)
+// x (trip count), as expressions over the constructor's parameters.
+func checkAddCount(p *core.Prog, t *tlInfo, adds []*ssa.Call, gos []*ssa.Go) (bool, string) {
+	if len(gos) == 0 {
+		return false, "no go statements in the constructor"
+	}
+	perLoop := map[*ssa.BasicBlock]int{} // nil key: outside all loops
+	for _, g := range gos {
+		perLoop[sx.InnermostLoop(t.Ctor, g.Block())]++
+	}
+	addIn := map[*ssa.BasicBlock][]*ssa.Call{}
+	for _, a := range adds {
+		h := sx.InnermostLoop(t.Ctor, a.Block())
+		addIn[h] = append(addIn[h], a)
+	}
+	var notes []string
+	uncovered := map[*ssa.BasicBlock]int{}
+	for h, n := range perLoop {
+		if h == nil {
+			continue
+		}
+		as := addIn[h]
+		if len(as) == 0 {
+			uncovered[h] = n
+			continue
+		}
+		sum := 0
+		for _, a := range as {
+			k, ok := sx.ConstInt(a.Call.Args[1])
+			if !ok {
+				return false, "wg.Add(" + sx.ValPath(a.Call.Args[1]) + ") inside a loop: not a constant per-iteration count"
+			}
+			sum += int(k)
+		}
+		if sum != n {
+			return false, fmt.Sprintf("a loop adds %d per iteration but starts %d goroutine(s) per iteration: Wait would return early or hang", sum, n)
+		}
+		notes = append(notes, fmt.Sprintf("Add(%d) per iteration for %d go statement(s) per iteration", sum, n))
+	}
+	for h, as := range addIn {
+		if h != nil && perLoop[h] == 0 {
+			return false, "wg.Add at " + p.Pos(as[0].Pos()) + " is in a loop that starts no goroutine"
+		}
+	}
+	outer := addIn[nil]
+	straight := perLoop[nil]
+	if len(uncovered) == 0 {
+		sum := 0
+		for _, a := range outer {
+			k, ok := sx.ConstInt(a.Call.Args[1])
+			if !ok {
+				return false, "wg.Add(" + sx.ValPath(a.Call.Args[1]) + ") outside the loops although every loop adds for itself"
+			}
+			sum += int(k)
+		}
+		if sum != straight {
+			return false, fmt.Sprintf("Add(%d) outside the loops for %d go statement(s) there", sum, straight)
+		}
+		if straight > 0 {
+			notes = append(notes, fmt.Sprintf("Add(%d) for %d go statement(s) outside loops", sum, straight))
+		}
+		return true, strings.Join(notes, "; ")
+	}
+	if len(outer) != 1 {
+		return false, fmt.Sprintf("%d wg.Add calls outside the loops for goroutines started in loops: the total cannot be compared symbolically", len(outer))
+	}
+	if straight > 0 {
+		return false, "go statements both inside and outside loops under one wg.Add: the total cannot be compared with wg.Add symbolically"
+	}
+	arg := outer[0].Call.Args[1]
+	var bound ssa.Value
+	total := 0
+	for h, n := range uncovered {
+		b, ok := sx.LoopTrip(h)
+		if !ok {
 			return false, "cannot determine the trip count of a loop that starts goroutines"
 		}
-		if bound != nil && sx.Unspill(bound) != sx.Unspill(b) {
+		b = t.canonCount(b)
+		if bound != nil && bound != b {
 			return false, "loops that start goroutines have different trip counts: the total cannot be compared with wg.Add symbolically"
 		}
 		bound = b
 		total += n
 	}
 	want := fmt.Sprintf("%s × %d", sx.ValPath(bound), total)
-	if b, ok := arg.(*ssa.BinOp); ok && b.Op == token.MUL {
+	if b, ok := sx.Unspill(arg).(*ssa.BinOp); ok && b.Op == token.MUL {
 		for _, pr := range [][2]ssa.Value{{b.X, b.Y}, {b.Y, b.X}} {
-			if k, isC := sx.ConstInt(pr[1]); isC && int(k) == total && sx.Unspill(pr[0]) == sx.Unspill(bound) {
-				return true, "Add(" + want + ") for " + fmt.Sprint(total) + " go statements per " + sx.ValPath(bound) + " iterations"
+			if k, isC := sx.ConstInt(pr[1]); isC && int(k) == total && t.canonCount(pr[0]) == bound {
+				notes = append(notes, "Add("+want+") for "+fmt.Sprint(total)+" go statements per "+sx.ValPath(bound)+" iterations")
+				return true, strings.Join(notes, "; ")
 			}
 		}
 	}
-	if total == 1 && sx.Unspill(arg) == sx.Unspill(bound) {
-		return true, "Add(" + sx.ValPath(bound) + ") for one go statement per iteration"
+	if total == 1 && t.canonCount(arg) == bound {
+		notes = append(notes, "Add("+sx.ValPath(bound)+") for one go statement per iteration")
+		return true, strings.Join(notes, "; ")
 	}
 	return false, "wg.Add(" + sx.ValPath(arg) + ") but the loops start " + want + " goroutines: Wait would return early or hang"
 }
@@ -464,7 +558,7 @@ func runC08(p *core.Prog, r *core.Report) {
 		var workerGos []*ssa.Go
 		var elsewhere []string
 		for _, g := range t.GoSites {
-			if sx.StaticCallee(g) != t.Worker {
+			if !sameFn(sx.StaticCallee(g), t.Worker) {
 				continue
 			}
 			workerGos = append(workerGos, g)
@@ -485,18 +579,14 @@ func runC08(p *core.Prog, r *core.Report) {
 				if !sx.LoopBody(h)[g.Block()] || g.Block() == h {
 					continue
 				}
-				iff, ok := h.Instrs[len(h.Instrs)-1].(*ssa.If)
+				bound, ok := sx.LoopTrip(h)
 				if !ok {
 					continue
 				}
-				b, ok := iff.Cond.(*ssa.BinOp)
-				if !ok || b.Op != token.LSS {
-					continue
-				}
-				if _, isParam := sx.Unspill(b.Y).(*ssa.Parameter); isParam {
+				if prm, isParam := t.canonCount(bound).(*ssa.Parameter); isParam {
 					// the same parameter is stored as laneSize / used for the channel lists
 					okLoop = true
-					why = "one go statement per iteration of `for i < " + sx.ValPath(b.Y) + "`"
+					why = "one go statement per iteration of a loop that runs " + prm.Name() + " times"
 				}
 			}
 		}
